@@ -1,1 +1,69 @@
-/-! C08 — property theorems (placeholder until the model exists). -/
+import EupsModel.Lemmas.FsEff
+/-! C08 — an interrupted update never corrupts or loses existing declarations.  Property theorems only
+(model: `Model/FsEff.lean`, helper lemmas: `Lemmas/FsEff.lean`).
+
+`effects cfg fs c` is the list of file-system effects of command `c` started in database state `fs`;
+`crashAt cfg fs c k` is the state a kill immediately before effect number `k` leaves behind; `read s r` is what a
+reader makes of record `r` in state `s` (absent / garbled = empty or truncated / its declared flavors / its
+flavor ↦ version assignments); `targets fs c` are the records the command may touch.  `cfg.atomic = true` is the
+tree with the D10 repair (records are written to a temporary file and renamed into place), `false` the pinned
+in-place writers. -/
+namespace EupsModel.C08
+open EupsModel.FsEff
+
+/-- **Frame** (core theorem).  Whatever the writers (repaired or pinned), whatever the state, the command and the
+crash point: every record the command does not target reads exactly as before. -/
+theorem C08_frame (cfg : Cfg) (fs : Fs) (c : Cmd) (k : Nat) (r : RPath) (h : r ∉ targets fs c) :
+    FsEff.read (crashAt cfg fs c k) r = FsEff.read fs r := by
+  unfold FsEff.read crashAt
+  congr 1
+  apply get_applyAll
+  intro e he hg
+  have he' : e ∈ effects cfg fs c := List.mem_of_mem_take he
+  obtain ⟨s, hs, r', hr', hgr⟩ := touched_expandAll cfg.atomic fs (steps fs c) e he' _ hg
+  rcases hgr with h1 | h1
+  · cases h1
+    exact h (steps_within fs c s hs r hr')
+  · cases h1
+
+/-- The clause "each record touched is seen in its old or in its new form, never truncated or empty" is false of
+the pinned writers (D10, repaired): `pa/1.version` holds flavors 0 and 1; flavor 0 is redeclared; killed right
+after the truncate, the record is seen empty — flavor 1, which the command did not touch, is lost with it —
+although both the old and the new record declare flavors 0 and 1. -/
+theorem C08_truncation_witness :
+    let fs : Fs := { dirs := [0], files := [(.main (.vfile 0 0), .complete (.ver [⟨0, false⟩, ⟨1, false⟩]))] }
+    let c : Cmd := .declare 0 0 0 none true
+    (RPath.vfile 0 0) ∈ targets fs c ∧
+    FsEff.read (crashAt { atomic := false } fs c 1) (.vfile 0 0) = .garbled ∧
+    FsEff.read fs (.vfile 0 0) = .flavors [0, 1] ∧
+    FsEff.read (final { atomic := false } fs c) (.vfile 0 0) = .flavors [0, 1] := by decide
+
+/-- With the repaired writers the same command at the same crash point leaves the record as it was. -/
+theorem C08_truncation_repaired :
+    let fs : Fs := { dirs := [0], files := [(.main (.vfile 0 0), .complete (.ver [⟨0, false⟩, ⟨1, false⟩]))] }
+    let c : Cmd := .declare 0 0 0 none true
+    ∀ k, k ≤ (effects {} fs c).length → FsEff.read (crashAt {} fs c k) (.vfile 0 0) = .flavors [0, 1] := by decide
+
+/-- The same clause is false of a tag move even with the repaired writers (D11, open): `current` is assigned to
+`pa 1` and is moved to `pa 2`; the chain record is removed and then written again; killed in between, the tag is
+assigned to nothing — neither the old nor the new record. -/
+theorem C08_tagmove_gap_witness :
+    let fs : Fs := { dirs := [0], files := [(.main (.vfile 0 0), .complete (.ver [⟨0, false⟩])),
+                                             (.main (.vfile 0 1), .complete (.ver [⟨0, false⟩])),
+                                             (.main (.cfile 0 0), .complete (.chain [⟨0, 0, false⟩]))] }
+    let c : Cmd := .declare 0 1 0 (some 0) false
+    (RPath.cfile 0 0) ∈ targets fs c ∧
+    FsEff.read (crashAt {} fs c 1) (.cfile 0 0) = .absent ∧
+    FsEff.read fs (.cfile 0 0) = .assigns [(0, 0)] ∧
+    FsEff.read (final {} fs c) (.cfile 0 0) = .assigns [(0, 1)] := by decide
+
+/-! Non-vacuity of `C08_frame`: in the state of the tag-move witness the command has 9 effects and the version
+record `pa/1.version` is not among its targets. -/
+example :
+    let fs : Fs := { dirs := [0], files := [(.main (.vfile 0 0), .complete (.ver [⟨0, false⟩])),
+                                             (.main (.vfile 0 1), .complete (.ver [⟨0, false⟩])),
+                                             (.main (.cfile 0 0), .complete (.chain [⟨0, 0, false⟩]))] }
+    (effects {} fs (.declare 0 1 0 (some 0) false)).length = 9 ∧
+    RPath.vfile 0 0 ∉ targets fs (.declare 0 1 0 (some 0) false) := by decide
+
+end EupsModel.C08
